@@ -25,7 +25,7 @@ impl Prop for C07 {
         // the caller brings the payload key (the same one every time) and leaves only the ephemeral key to the library
         for _ in 0..(if th { 3 } else { 1 }) { v.push(case(&[("kind", "batch".into()), ("given", "payload".into()), ("n", (if th { 400 } else { 150 }).to_string()), ("plen", "13".into()), ("seed", rng.next().to_string())])); }
         v.push(case(&[("kind", "generate".into()), ("n", (if th { 5000 } else { 300 }).to_string())]));
-        for what in ["pass-encrypt", "encrypt", "key-generate", "change-pass", "change-pass-same", "key-generate-empty", "change-pass-empty", "pass-encrypt-empty"] { v.push(case(&[("kind", "cli".into()), ("what", what.into()), ("n", (if th { 120 } else { 16 }).to_string()), ("seed", rng.next().to_string())])); }
+        for what in ["pass-encrypt", "encrypt", "key-generate", "change-pass", "change-pass-same", "key-generate-empty", "change-pass-empty", "pass-encrypt-empty", "encrypt-self"] { v.push(case(&[("kind", "cli".into()), ("what", what.into()), ("n", (if th { 120 } else { 16 }).to_string()), ("seed", rng.next().to_string())])); }
         // one invocation, several inputs (more FILE arguments than the usage line names, with and without -o): whatever the tool makes of it —
         // a usage error today — every encrypted file a single invocation leaves behind carries its own salt / ephemeral key
         for what in ["pass-encrypt", "encrypt"] { for shape in ["two", "three", "two-o", "dup"] { v.push(case(&[("kind", "cli-multi".into()), ("what", what.into()), ("shape", shape.into()), ("seed", rng.next().to_string())])); } }
@@ -119,6 +119,8 @@ impl Prop for C07 {
                     let (world, args): (World, Vec<String>) = match what {
                         "pass-encrypt" => (World { files: vec![("p".into(), plain.clone())], env: vec![("KESTREL_PASSWORD".into(), "same".into())], stdin: vec![] }, sv(&["pass", "enc", "p", "-o", "c", "--env-pass"])),
                         "encrypt" => (World { files: vec![("p".into(), plain.clone()), ("kr".into(), kr.clone())], env: vec![("KESTREL_PASSWORD".into(), fx.alice.pw.into())], stdin: vec![] }, sv(&["enc", "p", "-t", "bob", "-f", "alice", "-o", "c", "-k", "kr", "--env-pass"])),
+                        // a user encrypting to their own key: the ephemeral key is as fresh as for anybody else (and is not the static key)
+                        "encrypt-self" => (World { files: vec![("p".into(), plain.clone()), ("kr".into(), kr.clone())], env: vec![("KESTREL_PASSWORD".into(), fx.alice.pw.into())], stdin: vec![] }, sv(&["enc", "p", "-t", "alice", "-f", "alice", "-o", "c", "-k", "kr", "--env-pass"])),
                         "key-generate" => (World { files: vec![], env: vec![("KESTREL_PASSWORD".into(), "same".into())], stdin: b"same name\n".to_vec() }, sv(&["key", "gen", "-o", "c", "--env-pass"])),
                         // the EMPTY password is a password like any other: salts and keys are as fresh as with any
                         "key-generate-empty" => (World { files: vec![], env: vec![("KESTREL_PASSWORD".into(), "".into())], stdin: b"same name\n".to_vec() }, sv(&["key", "gen", "-o", "c", "--env-pass"])),
@@ -132,13 +134,15 @@ impl Prop for C07 {
                     use ct_codecs::{Base64, Decoder};
                     let (fresh1, fresh2): (Vec<u8>, Vec<u8>) = match what {
                         "pass-encrypt" | "pass-encrypt-empty" => { let f = obs.file("c").cloned().unwrap_or_default(); (f[4..36].to_vec(), f[36..].to_vec()) }
-                        "encrypt" => { let f = obs.file("c").cloned().unwrap_or_default(); let r = m.ask(&format!("key_open {} {} {}", hex(&fx.bob.sk), hex(&fx.bob.pk), hex(&f[..132]))); o.validated += 1; let p: Vec<&str> = r.split(' ').collect(); if p.len() != 5 { o.disagreement = Some(format!("model cannot open CLI output: {}", r)); return o; } (f[4..36].to_vec(), unhex(p[4])) }
+                        "encrypt" | "encrypt-self" => { let f = obs.file("c").cloned().unwrap_or_default(); let (rsk, rpk) = if what == "encrypt" { (&fx.bob.sk, &fx.bob.pk) } else { (&fx.alice.sk, &fx.alice.pk) };
+                            if what == "encrypt-self" && f.len() >= 36 && f[4..36] == fx.alice.pk[..] { o.oracle_fail = Some(("fresh-randomness-per-invocation".into(), format!("`kestrel {}`: the ephemeral public key in the file is the sender's static public key", args.join(" ")))); return o; }
+                            let r = m.ask(&format!("key_open {} {} {}", hex(rsk), hex(rpk), hex(&f[..132]))); o.validated += 1; let p: Vec<&str> = r.split(' ').collect(); if p.len() != 5 { o.disagreement = Some(format!("model cannot open CLI output: {}", r)); return o; } (f[4..36].to_vec(), unhex(p[4])) }
                         "key-generate" | "key-generate-empty" => { let t = String::from_utf8_lossy(obs.file("c").map(|x| &x[..]).unwrap_or(&[])).to_string(); let sk = t.lines().find(|l| l.starts_with("PrivateKey = ")).map(|l| l[13..].to_string()).unwrap_or_default(); let blob = Base64::decode_to_vec(&sk, None).unwrap_or(vec![0; 84]); let key = crate::props::c15::rust_unlock(&sk, if what == "key-generate" { &b"same"[..] } else { &b""[..] }); (blob[4..36].to_vec(), key.into_bytes()) }
                         _ => { let t = String::from_utf8_lossy(&obs.stdout).trim().to_string(); let blob = Base64::decode_to_vec(t.trim_start_matches("PrivateKey = "), None).unwrap_or(vec![0; 84]); (blob[4..36].to_vec(), blob[36..].to_vec()) }
                     };
                     if fresh1 == vec![0u8; 32] { o.oracle_fail = Some(("fresh-value-not-zero".into(), format!("{}: all-zero salt / ephemeral key", what))); return o; }
-                    if !a.insert(fresh1) { o.oracle_fail = Some(("fresh-randomness-per-invocation".into(), format!("`kestrel {}` run {} times with identical inputs: invocation {} repeated an earlier {}", args.join(" "), n, i, if what == "encrypt" { "ephemeral key" } else { "salt" }))); return o; }
-                    if !b.insert(fresh2) { o.oracle_fail = Some(("fresh-randomness-per-invocation".into(), format!("`kestrel {}` run {} times with identical inputs: invocation {} repeated an earlier {}", args.join(" "), n, i, match what { "encrypt" => "file key", "key-generate" | "key-generate-empty" => "private key", _ => "ciphertext" }))); return o; }
+                    if !a.insert(fresh1) { o.oracle_fail = Some(("fresh-randomness-per-invocation".into(), format!("`kestrel {}` run {} times with identical inputs: invocation {} repeated an earlier {}", args.join(" "), n, i, if what.starts_with("encrypt") { "ephemeral key" } else { "salt" }))); return o; }
+                    if !b.insert(fresh2) { o.oracle_fail = Some(("fresh-randomness-per-invocation".into(), format!("`kestrel {}` run {} times with identical inputs: invocation {} repeated an earlier {}", args.join(" "), n, i, match what { "encrypt" | "encrypt-self" => "file key", "key-generate" | "key-generate-empty" => "private key", _ => "ciphertext" }))); return o; }
                 }
                 o.impl_obs = format!("{} x `{}`: {} / {} distinct fresh values", n, what, a.len(), b.len());
             }
